@@ -161,11 +161,63 @@ fn history_case<P: G>(hist: Vec<(usize, usize)>) -> Box<dyn Case> {
     })
 }
 
+/// The generators a parameter object (and its clones) hands out do not change when the object is used for proving and
+/// verifying with various aggregation sizes
+fn after_use_case<P: G>(n: usize, c: usize, read_first: bool) -> Box<dyn Case> {
+    use crate::api::HRng;
+    case(format!("{}/after-use/n={},c={}/read-before-first-use={}", P::NAME, n, c, read_first), move |_v| {
+        fg::clear_intern();
+        let mut res = CaseResult::new("explored");
+        let params = P::params(n, c, P::pc_gens(1)).unwrap();
+        let (rg, rh) = refbp::ref_gens::<P>(n, c);
+        let mut check = |res: &mut CaseResult, when: &str, p: &tari_bulletproofs_plus::range_parameters::RangeParameters<P>| {
+            res.validated += 1;
+            let (g, h) = (P::gi_vec(p), P::hi_vec(p));
+            if g != rg || h != rh {
+                res.violate(when.to_string(), format!("after {}: the parameter object hands out {} / {} vector generators (expected {}), or they differ from the derivation", when, g.len(), h.len(), n * c));
+            }
+        };
+        if read_first {
+            check(&mut res, "construction", &params);
+        }
+        let mut m = 1usize;
+        let mut sizes = Vec::new();
+        while m <= c {
+            sizes.push(m);
+            m *= 2;
+        }
+        let mut order = sizes.clone();
+        order.extend(sizes.iter().rev());
+        for m in order {
+            res.transitions += 1;
+            let cfg = Cfg::new(n, m, c, 1);
+            let wit = Wit::default_for(&cfg);
+            let commitments = commitments_for(params.pc_gens(), &wit).unwrap();
+            let st = P::statement(params.clone(), commitments, wit.promises.clone(), None).unwrap();
+            let witness = witness_for(&wit).unwrap();
+            let mut t = CTX_A.transcript();
+            let proved = catch(|| P::prove(&mut t, &st, &witness, &mut HRng::chacha(5)));
+            res.executions += 1;
+            if let Ok(Ok(proof)) = proved {
+                let obs = verify_observed_one(&st, &proof, &CTX_A, tari_bulletproofs_plus::range_proof::VerifyAction::VerifyOnly);
+                res.executions += 1;
+                *res.outcome_counter(&format!("after-use-verify:{}", obs.class())) += 1;
+            } else {
+                *res.outcome_counter("after-use-prove-failed(noted)") += 1;
+            }
+            check(&mut res, &format!("proving and verifying an aggregate of {}", m), &params);
+            check(&mut res, &format!("proving and verifying an aggregate of {} (read through a clone)", m), &params.clone());
+        }
+        res
+    })
+}
+
 pub fn run(rep: &mut Report) {
     rep.rule = "every (bits, capacity) in {1,2,4,8,16,32,64} x {1,2,4,8,(16,32)} x extension degree 1..6, fresh construction: (1) the \
                 1+d+2*n*c points are pairwise distinct and none is the identity, (2) each equals the independent SHAKE256 / SHA3-512 \
                 derivation, (3) compressed accessors are the encodings of the same points, (4) the precomputed table is interrogated one \
-                unit vector at a time against the interleaved order, (5) construction histories of length <= 3 over the (n,c) alphabet; \
+                unit vector at a time against the interleaved order, (5) construction histories of length <= 3 over the (n,c) alphabet, and use histories (prove + verify aggregates of every size, up and down) \
+                after which the object and its clones must still hand out the same generators; \
                 schedules: first-use race of the two cached generator arrays, every interleaving with <= 2 (thorough 3) preemptions, one \
                 fresh process per schedule"
         .into();
@@ -196,6 +248,12 @@ pub fn run(rep: &mut Report) {
                     cases.push(history_case::<RistrettoPoint>(vec![a, b, c]));
                 }
             }
+        }
+    }
+    for (n, c) in [(2usize, 4usize), (8, 4), (8, 8), (64, 2)] {
+        for read_first in [false, true] {
+            cases.push(after_use_case::<RistrettoPoint>(n, c, read_first));
+            cases.push(after_use_case::<F>(n, c, read_first));
         }
     }
     rep.explore("C11", cases);
